@@ -11,6 +11,9 @@
 
 use crate::enc_util::*;
 use poulpy_core::layouts::{
+    GGLWEPreparedFactory, GGLWEToGGSWKeyPreparedFactory, GGSWPreparedFactory, GLWEAutomorphismKeyPreparedFactory, GLWESecretTensor,
+    GLWESecretTensorFactory, GLWESwitchingKeyPreparedFactory, GLWETensorKeyPreparedFactory, GLWEToLWEKeyPreparedFactory,
+    LWESwitchingKeyPreparedFactory, LWEToGLWEKeyPreparedFactory,
     Dnum, Dsize, GGLWE, GGLWECompressed, GGLWECompressedSeed, GGLWECompressedToRef, GGLWEDecompress, GGLWELayout,
     GGLWEToGGSWKey, GGLWEToGGSWKeyCompressed, GGLWEToGGSWKeyLayout, GGLWEToRef, GGSW, GGSWCompressed,
     GGSWCompressedSeed, GGSWDecompress, GGSWLayout, GLWE, GLWEAutomorphismKey, GLWEAutomorphismKeyCompressed,
@@ -20,7 +23,7 @@ use poulpy_core::layouts::{
     GLWETensorKeyLayout, GLWEToLWEKey, GLWEToRef, LWE, LWELayout, LWEPlaintext, LWESwitchingKey, LWEToGLWEKey,
 };
 use poulpy_core::{
-    EncryptionLayout, GGLWECompressedEncryptSk, GGLWEEncryptSk, GGLWEToGGSWKeyCompressedEncryptSk, GGLWEToGGSWKeyEncryptSk,
+    GLWEDecrypt, LWEDecrypt, EncryptionLayout, GGLWECompressedEncryptSk, GGLWEEncryptSk, GGLWEToGGSWKeyCompressedEncryptSk, GGLWEToGGSWKeyEncryptSk,
     GGSWCompressedEncryptSk, GGSWEncryptSk, GLWEAutomorphismKeyCompressedEncryptSk, GLWEAutomorphismKeyEncryptSk,
     GLWECompressedEncryptSk, GLWEEncryptPk, GLWEEncryptSk, GLWEPublicKeyGenerate, GLWESwitchingKeyCompressedEncryptSk,
     GLWESwitchingKeyEncryptSk, GLWETensorKeyCompressedEncryptSk, GLWETensorKeyEncryptSk, GLWEToLWESwitchingKeyEncryptSk,
@@ -231,7 +234,10 @@ pub struct Cell {
     pub mask_cols: usize,
 }
 
+#[derive(Default)]
 pub struct Obj {
+    /// extras mode: the program's steps (secrets, keys, objects, decryptions, prepared buffers) in execution order
+    pub steps: Vec<Step>,
     pub cells: Vec<Cell>,
     /// serialisation of the object as the routine produced it (the compressed form for compressed routines)
     pub bytes: Vec<u8>,
@@ -372,11 +378,57 @@ where
     Module<B>: HalAll<B> + CoreAll<B>,
     Scratch<B>: ScratchTakeCore<B>,
 {
+    let _ = take_steps();
+    let _ = take_issues();
+    let res = build_inner::<B>(m, r, sh, inp);
+    let steps = take_steps();
+    let issues = take_issues();
+    let mut o = res?;
+    if !issues.is_empty() {
+        return Err(issues.join("; "));
+    }
+    if extras() {
+        o.steps = steps;
+        o.steps.push(Step {
+            name: "object".into(),
+            bytes: o.bytes.clone(),
+            portable: true,
+        });
+        let mut cells: Vec<i64> = vec![];
+        for c in &o.cells {
+            cells.extend_from_slice(&c.body);
+            cells.extend_from_slice(&c.mask);
+        }
+        o.steps.push(Step {
+            name: "cells".into(),
+            bytes: i64_bytes(&cells).to_vec(),
+            portable: true,
+        });
+    }
+    Ok(o)
+}
+
+fn build_inner<B: Bk>(m: &Module<B>, r: Routine, sh: &Shape, inp: &Inp) -> Result<Obj, String>
+where
+    Module<B>: HalAll<B> + CoreAll<B>,
+    Scratch<B>: ScratchTakeCore<B>,
+{
     let (n, b, rank) = (sh.n, sh.b, sh.rank);
     let (size, bits) = (sh.size(), sh.bits());
     let noise = sh.noise();
     let dist = Dist::TernaryProb;
     let g = inp.g;
+    // extras: prepare the produced key material with the routine's own prepare function and companion query
+    macro_rules! prep {
+        ($op:expr, $alloc:expr, $tmp:expr, |$p:ident, $sc:ident| $call:expr) => {
+            if extras() {
+                #[allow(unused_mut)]
+                let mut $p = $alloc;
+                let by = $tmp;
+                with_scratch_op::<B, _>($op, by, g, |$sc| guarded(|| $call)).map_err(|e| format!("{}: {}", $op, e))?;
+            }
+        };
+    }
     macro_rules! lib {
         ($stage:expr, $e:expr) => {
             guarded(|| $e).map_err(|m| format!("{}: {}", $stage, m))?
@@ -406,8 +458,10 @@ where
             )
             .map_err(|e| format!("layout: {e}"))?;
             let sk = make_sk::<B>(m, n, rank, dist, seed_s(inp.s));
+            let _guard_sk = SkGuard::new("glwe secret sk", m, &sk);
             let mut pt = GLWEPlaintext::alloc(deg(n), b2k(b), tp(bits));
             fill_message(pt.data_mut(), b, 5 + inp.p, &mut Rng::new(7, inp.p as u64));
+            let _guard_pt = RawGuard::new("plaintext", pt.data().raw());
             let zero: Vec<IBig> = vec![IBig::from(0); n];
             let want_pt: Vec<IBig> = (0..n).map(|i| coeff_value(pt.data(), 0, i, b)).collect();
             let mut xe = Source::new(seed_e(inp.e));
@@ -438,7 +492,9 @@ where
                         guarded(|| m.glwe_compressed_encrypt_sk(&mut cc, &pt, &sk.prep, seed_a(inp.a), &enc, &mut xe, sc))
                     })
                     .map_err(|e| format!("encrypt: {e}"))?;
+                    let d0 = operand_digest(&cc);
                     lib!("decompress", m.decompress_glwe(&mut ct, &cc));
+                    operand_verify("compressed object (decompress)", d0, &cc);
                     seed = Some(*cc.seed());
                     let by = ser(&cc);
                     // round trip
@@ -447,7 +503,9 @@ where
                     de(&mut c2, &by)?;
                     let mut ct2 = GLWE::alloc(deg(n), b2k(b), tp(bits), rk(rank));
                     ct2.fill_uniform(64, &mut gsrc(g + 5));
+                    let d0 = operand_digest(&c2);
                     lib!("decompress(roundtrip)", m.decompress_glwe(&mut ct2, &c2));
+                    operand_verify("compressed object (decompress(roundtrip))", d0, &c2);
                     let c = cell_glwe(ct2.data(), b, &sk.clear, &want_pt, (0, 0, 0), None);
                     roundtrip = Some(vec![(c.body, c.mask)]);
                     bytes_override = Some(by);
@@ -460,7 +518,16 @@ where
                         pk.to_mut().fill_uniform(64, &mut gsrc(g + 2));
                     }
                     lib!("pk_generate", m.glwe_public_key_generate(&mut pk, &sk.prep, &enc, &mut xe, &mut xa));
+                    record_step("public_key", &ser(&pk), true);
                     if r == Routine::GlwePkGen {
+                        if extras() {
+                            let mut po = GLWEPlaintext::alloc(deg(n), b2k(b), tp(bits));
+                            po.data_mut().fill_uniform(64, &mut gsrc(g + 7));
+                            let by = m.glwe_decrypt_tmp_bytes(&enc);
+                            with_scratch_op::<B, _>("glwe_decrypt", by, g, |sc| guarded(|| m.glwe_decrypt(&pk, &mut po, &sk.prep, sc)))
+                                .map_err(|e| format!("glwe_decrypt: {e}"))?;
+                            record_step("decrypted", i64_bytes(po.data().raw()), true);
+                        }
                         let d = vec_owned(pk.to_ref().data());
                         let c = cell_glwe(&d, b, &sk.clear, &zero, (0, 0, 0), None);
                         return Ok(Obj {
@@ -469,6 +536,7 @@ where
                             roundtrip: None,
                             bits,
                             key_l1: sk.l1,
+                            ..Default::default()
                         });
                     }
                     let mut pp = m.glwe_public_key_prepared_alloc_from_infos(&enc);
@@ -483,6 +551,14 @@ where
                 }
                 _ => unreachable!(),
             };
+            if extras() {
+                let mut po = GLWEPlaintext::alloc(deg(n), b2k(b), tp(bits));
+                po.data_mut().fill_uniform(64, &mut gsrc(g + 7));
+                let by = m.glwe_decrypt_tmp_bytes(&enc);
+                with_scratch_op::<B, _>("glwe_decrypt", by, g, |sc| guarded(|| m.glwe_decrypt(&ct, &mut po, &sk.prep, sc)))
+                    .map_err(|e| format!("glwe_decrypt: {e}"))?;
+                record_step("decrypted", i64_bytes(po.data().raw()), true);
+            }
             let c = cell_glwe(ct.data(), b, &sk.clear, &want, (0, 0, 0), seed);
             Ok(Obj {
                 cells: vec![c],
@@ -490,6 +566,7 @@ where
                 roundtrip,
                 bits,
                 key_l1: sk.l1,
+                ..Default::default()
             })
         }
         // -------------------------------------------------------------------------------------
@@ -504,8 +581,10 @@ where
             )
             .map_err(|e| format!("layout: {e}"))?;
             let (sk, clear) = make_lwe_sk(n, dist, seed_s(inp.s));
+            let _guard_sk = RawGuard::new("lwe secret sk", sk.raw());
             let mut pt = LWEPlaintext::alloc(b2k(b), tp(bits));
             fill_message(pt.data_mut(), b, 5 + inp.p, &mut Rng::new(7, inp.p as u64));
+            let _guard_pt = RawGuard::new("plaintext", pt.data().raw());
             let mut ct = LWE::alloc(deg(n), b2k(b), tp(bits));
             ct.fill_uniform(64, &mut gsrc(g));
             let mut xe = Source::new(seed_e(inp.e));
@@ -513,6 +592,14 @@ where
             let by = m.lwe_encrypt_sk_tmp_bytes(&enc);
             with_scratch::<B, _>(by, g, |sc| guarded(|| m.lwe_encrypt_sk(&mut ct, &pt, &sk, &enc, &mut xe, &mut xa, sc)))
                 .map_err(|e| format!("encrypt: {e}"))?;
+            if extras() {
+                let mut po = LWEPlaintext::alloc(b2k(b), tp(bits));
+                po.data_mut().fill_uniform(64, &mut gsrc(g + 7));
+                let by = m.lwe_decrypt_tmp_bytes(&enc);
+                with_scratch_op::<B, _>("lwe_decrypt", by, g, |sc| guarded(|| m.lwe_decrypt(&ct, &mut po, &sk, sc)))
+                    .map_err(|e| format!("lwe_decrypt: {e}"))?;
+                record_step("decrypted", i64_bytes(po.data().raw()), true);
+            }
             let d = vec_owned(ct.data());
             let ph = lwe_phase(&d, b, &clear);
             let want = coeff_value(pt.data(), 0, 0, b);
@@ -538,17 +625,20 @@ where
                 roundtrip: None,
                 bits,
                 key_l1: clear.iter().map(|x| x.unsigned_abs() as i128).sum(),
+                ..Default::default()
             })
         }
         // -------------------------------------------------------------------------------------
         Routine::Gglwe | Routine::GglweCompressed => {
             let enc = EncryptionLayout::new(gglwe_layout(sh.rank_in, rank), noise).map_err(|e| format!("layout: {e}"))?;
             let sk = make_sk::<B>(m, n, rank, dist, seed_s(inp.s));
+            let _guard_sk = SkGuard::new("glwe secret sk", m, &sk);
             let pts: Vec<Vec<i64>> = (0..sh.rank_in).map(|c| small_poly(n, inp.p, c)).collect();
             let mut pt = ScalarZnx::alloc(n, sh.rank_in);
             for (c, p) in pts.iter().enumerate() {
                 pt.at_mut(c, 0).copy_from_slice(p);
             }
+            let _guard_pt = RawGuard::new("plaintext", pt.raw());
             let mut xe = Source::new(seed_e(inp.e));
             let mut xa = Source::new(seed_a(inp.a));
             let mut key = GGLWE::alloc_from_infos(&enc);
@@ -557,12 +647,14 @@ where
                 let by = m.gglwe_encrypt_sk_tmp_bytes(&enc);
                 with_scratch::<B, _>(by, g, |sc| guarded(|| m.gglwe_encrypt_sk(&mut key, &pt, &sk.prep, &enc, &mut xe, &mut xa, sc)))
                     .map_err(|e| format!("encrypt: {e}"))?;
+                prep!("gglwe_prepare", m.gglwe_prepared_alloc_from_infos(&enc), m.gglwe_prepare_tmp_bytes(&enc), |p, sc| m.gglwe_prepare(&mut p, &key, sc));
                 Ok(Obj {
                     cells: cells_gglwe(&key, 0, sh, &sk.clear, &pts, None),
                     bytes: ser(&key),
                     roundtrip: None,
                     bits,
                     key_l1: sk.l1,
+                    ..Default::default()
                 })
             } else {
                 let mut cc = GGLWECompressed::alloc_from_infos(&enc);
@@ -572,7 +664,10 @@ where
                     guarded(|| m.gglwe_compressed_encrypt_sk(&mut cc, &pt, &sk.prep, seed_a(inp.a), &enc, &mut xe, sc))
                 })
                 .map_err(|e| format!("encrypt: {e}"))?;
+                let d0 = operand_digest(&cc);
                 lib!("decompress", m.decompress_gglwe(&mut key, &cc));
+                operand_verify("compressed object (decompress)", d0, &cc);
+                prep!("gglwe_prepare", m.gglwe_prepared_alloc_from_infos(&enc), m.gglwe_prepare_tmp_bytes(&enc), |p, sc| m.gglwe_prepare(&mut p, &key, sc));
                 let seeds = cc.seed().clone();
                 let by = ser(&cc);
                 let mut c2 = GGLWECompressed::alloc_from_infos(&enc);
@@ -580,13 +675,16 @@ where
                 de(&mut c2, &by)?;
                 let mut k2 = GGLWE::alloc_from_infos(&enc);
                 k2.fill_uniform(64, &mut gsrc(g + 5));
+                let d0 = operand_digest(&c2);
                 lib!("decompress(roundtrip)", m.decompress_gglwe(&mut k2, &c2));
+                operand_verify("compressed object (decompress(roundtrip))", d0, &c2);
                 Ok(Obj {
                     cells: cells_gglwe(&key, 0, sh, &sk.clear, &pts, Some(&seeds)),
                     bytes: by,
                     roundtrip: Some(body_mask(&cells_gglwe(&k2, 0, sh, &sk.clear, &pts, None))),
                     bits,
                     key_l1: sk.l1,
+                    ..Default::default()
                 })
             }
         }
@@ -605,9 +703,11 @@ where
             )
             .map_err(|e| format!("layout: {e}"))?;
             let sk = make_sk::<B>(m, n, rank, dist, seed_s(inp.s));
+            let _guard_sk = SkGuard::new("glwe secret sk", m, &sk);
             let p = small_poly(n, inp.p, 0);
             let mut pt = ScalarZnx::alloc(n, 1);
             pt.at_mut(0, 0).copy_from_slice(&p);
+            let _guard_pt = RawGuard::new("plaintext", pt.raw());
             let mut xe = Source::new(seed_e(inp.e));
             let mut xa = Source::new(seed_a(inp.a));
             let mut ct = GGSW::alloc_from_infos(&enc);
@@ -628,12 +728,19 @@ where
                 let by = m.ggsw_encrypt_sk_tmp_bytes(&enc);
                 with_scratch::<B, _>(by, g, |sc| guarded(|| m.ggsw_encrypt_sk(&mut ct, &pt, &sk.prep, &enc, &mut xe, &mut xa, sc)))
                     .map_err(|e| format!("encrypt: {e}"))?;
+                if extras() {
+                    let mut p = m.ggsw_prepared_alloc_from_infos(&enc);
+                    let by = m.ggsw_prepare_tmp_bytes(&enc);
+                    with_scratch_op::<B, _>("ggsw_prepare", by, g, |sc| guarded(|| m.ggsw_prepare(&mut p, &ct, sc))).map_err(|e| format!("ggsw_prepare: {e}"))?;
+                    record_step("prepared(ggsw)", poulpy_hal::layouts::DataView::data(p.data()).as_ref(), false);
+                }
                 Ok(Obj {
                     cells: cells_of(&ct, None),
                     bytes: ser(&ct),
                     roundtrip: None,
                     bits,
                     key_l1: sk.l1,
+                    ..Default::default()
                 })
             } else {
                 let mut cc = GGSWCompressed::alloc_from_infos(&enc);
@@ -643,7 +750,15 @@ where
                     guarded(|| m.ggsw_compressed_encrypt_sk(&mut cc, &pt, &sk.prep, seed_a(inp.a), &enc, &mut xe, sc))
                 })
                 .map_err(|e| format!("encrypt: {e}"))?;
+                let d0 = operand_digest(&cc);
                 lib!("decompress", m.decompress_ggsw(&mut ct, &cc));
+                operand_verify("compressed object (decompress)", d0, &cc);
+                if extras() {
+                    let mut p = m.ggsw_prepared_alloc_from_infos(&enc);
+                    let by = m.ggsw_prepare_tmp_bytes(&enc);
+                    with_scratch_op::<B, _>("ggsw_prepare", by, g, |sc| guarded(|| m.ggsw_prepare(&mut p, &ct, sc))).map_err(|e| format!("ggsw_prepare: {e}"))?;
+                    record_step("prepared(ggsw)", poulpy_hal::layouts::DataView::data(p.data()).as_ref(), false);
+                }
                 let seeds = cc.seed().clone();
                 let by = ser(&cc);
                 let mut c2 = GGSWCompressed::alloc_from_infos(&enc);
@@ -651,13 +766,16 @@ where
                 de(&mut c2, &by)?;
                 let mut k2 = GGSW::alloc_from_infos(&enc);
                 k2.fill_uniform(64, &mut gsrc(g + 5));
+                let d0 = operand_digest(&c2);
                 lib!("decompress(roundtrip)", m.decompress_ggsw(&mut k2, &c2));
+                operand_verify("compressed object (decompress(roundtrip))", d0, &c2);
                 Ok(Obj {
                     cells: cells_of(&ct, Some(&seeds)),
                     bytes: by,
                     roundtrip: Some(body_mask(&cells_of(&k2, None))),
                     bits,
                     key_l1: sk.l1,
+                    ..Default::default()
                 })
             }
         }
@@ -674,7 +792,9 @@ where
             };
             let enc = EncryptionLayout::new(lay, noise).map_err(|e| format!("layout: {e}"))?;
             let sk_out = make_sk::<B>(m, n, rank, dist, seed_s(inp.s));
+            let _guard_sk_out = SkGuard::new("glwe secret sk_out", m, &sk_out);
             let sk_in = make_sk::<B>(m, n, sh.rank_in, dist, seed_p(inp.p));
+            let _guard_sk_in = SkGuard::new("glwe secret sk_in", m, &sk_in);
             let pts = sk_in.clear.clone();
             let mut xe = Source::new(seed_e(inp.e));
             let mut xa = Source::new(seed_a(inp.a));
@@ -686,12 +806,14 @@ where
                     guarded(|| m.glwe_switching_key_encrypt_sk(&mut key, &sk_in.sk, &sk_out.sk, &enc, &mut xe, &mut xa, sc))
                 })
                 .map_err(|e| format!("encrypt: {e}"))?;
+                prep!("glwe_switching_key_prepare", m.glwe_switching_key_prepared_alloc_from_infos(&enc), m.glwe_switching_key_prepare_tmp_bytes(&enc), |p, sc| m.glwe_switching_key_prepare(&mut p, &key, sc));
                 Ok(Obj {
                     cells: cells_gglwe(&key, 0, sh, &sk_out.clear, &pts, None),
                     bytes: ser(&key),
                     roundtrip: None,
                     bits,
                     key_l1: sk_out.l1,
+                    ..Default::default()
                 })
             } else {
                 let mut cc = GLWESwitchingKeyCompressed::alloc_from_infos(&enc);
@@ -703,7 +825,10 @@ where
                     })
                 })
                 .map_err(|e| format!("encrypt: {e}"))?;
+                let d0 = operand_digest(&cc);
                 lib!("decompress", m.decompress_glwe_switching_key(&mut key, &cc));
+                operand_verify("compressed object (decompress)", d0, &cc);
+                prep!("glwe_switching_key_prepare", m.glwe_switching_key_prepared_alloc_from_infos(&enc), m.glwe_switching_key_prepare_tmp_bytes(&enc), |p, sc| m.glwe_switching_key_prepare(&mut p, &key, sc));
                 let seeds = cc.to_ref().seed().clone();
                 let by = ser(&cc);
                 let mut c2 = GLWESwitchingKeyCompressed::alloc_from_infos(&enc);
@@ -711,13 +836,16 @@ where
                 de(&mut c2, &by)?;
                 let mut k2 = GLWESwitchingKey::alloc_from_infos(&enc);
                 k2.fill_uniform(64, &mut gsrc(g + 5));
+                let d0 = operand_digest(&c2);
                 lib!("decompress(roundtrip)", m.decompress_glwe_switching_key(&mut k2, &c2));
+                operand_verify("compressed object (decompress(roundtrip))", d0, &c2);
                 Ok(Obj {
                     cells: cells_gglwe(&key, 0, sh, &sk_out.clear, &pts, Some(&seeds)),
                     bytes: by,
                     roundtrip: Some(body_mask(&cells_gglwe(&k2, 0, sh, &sk_out.clear, &pts, None))),
                     bits,
                     key_l1: sk_out.l1,
+                    ..Default::default()
                 })
             }
         }
@@ -733,6 +861,7 @@ where
             };
             let enc = EncryptionLayout::new(lay, noise).map_err(|e| format!("layout: {e}"))?;
             let sk = make_sk::<B>(m, n, rank, dist, seed_s(inp.s));
+            let _guard_sk = SkGuard::new("glwe secret sk", m, &sk);
             let gal: i64 = [5i64, -3][inp.p % 2];
             let gal_inv = ring::inv_mod_2n(gal, n);
             let key_clear: Vec<Vec<i64>> = sk.clear.iter().map(|s| ring::automorphism(s, gal_inv)).collect();
@@ -748,12 +877,14 @@ where
                     guarded(|| m.glwe_automorphism_key_encrypt_sk(&mut key, gal, &sk.sk, &enc, &mut xe, &mut xa, sc))
                 })
                 .map_err(|e| format!("encrypt: {e}"))?;
+                prep!("glwe_automorphism_key_prepare", m.glwe_automorphism_key_prepared_alloc_from_infos(&enc), m.glwe_automorphism_key_prepare_tmp_bytes(&enc), |p, sc| m.glwe_automorphism_key_prepare(&mut p, &key, sc));
                 Ok(Obj {
                     cells: cells_gglwe(&key, 0, sh, &key_clear, &pts, None),
                     bytes: ser(&key),
                     roundtrip: None,
                     bits,
                     key_l1: l1,
+                    ..Default::default()
                 })
             } else {
                 let mut cc = GLWEAutomorphismKeyCompressed::alloc_from_infos(&enc);
@@ -763,7 +894,10 @@ where
                     guarded(|| m.glwe_automorphism_key_compressed_encrypt_sk(&mut cc, gal, &sk.sk, seed_a(inp.a), &enc, &mut xe, sc))
                 })
                 .map_err(|e| format!("encrypt: {e}"))?;
+                let d0 = operand_digest(&cc);
                 lib!("decompress", m.decompress_automorphism_key(&mut key, &cc));
+                operand_verify("compressed object (decompress)", d0, &cc);
+                prep!("glwe_automorphism_key_prepare", m.glwe_automorphism_key_prepared_alloc_from_infos(&enc), m.glwe_automorphism_key_prepare_tmp_bytes(&enc), |p, sc| m.glwe_automorphism_key_prepare(&mut p, &key, sc));
                 let seeds = cc.to_ref().seed().clone();
                 let by = ser(&cc);
                 let mut c2 = GLWEAutomorphismKeyCompressed::alloc_from_infos(&enc);
@@ -771,13 +905,16 @@ where
                 de(&mut c2, &by)?;
                 let mut k2 = GLWEAutomorphismKey::alloc_from_infos(&enc);
                 k2.fill_uniform(64, &mut gsrc(g + 5));
+                let d0 = operand_digest(&c2);
                 lib!("decompress(roundtrip)", m.decompress_automorphism_key(&mut k2, &c2));
+                operand_verify("compressed object (decompress(roundtrip))", d0, &c2);
                 Ok(Obj {
                     cells: cells_gglwe(&key, 0, sh, &key_clear, &pts, Some(&seeds)),
                     bytes: by,
                     roundtrip: Some(body_mask(&cells_gglwe(&k2, 0, sh, &key_clear, &pts, None))),
                     bits,
                     key_l1: l1,
+                    ..Default::default()
                 })
             }
         }
@@ -793,6 +930,7 @@ where
             };
             let enc = EncryptionLayout::new(lay, noise).map_err(|e| format!("layout: {e}"))?;
             let sk = make_sk::<B>(m, n, rank, dist, seed_s(inp.s));
+            let _guard_sk = SkGuard::new("glwe secret sk", m, &sk);
             let mut pts = vec![];
             for i in 0..rank {
                 for j in i..rank {
@@ -807,12 +945,27 @@ where
                 let by = m.glwe_tensor_key_encrypt_sk_tmp_bytes(&enc);
                 with_scratch::<B, _>(by, g, |sc| guarded(|| m.glwe_tensor_key_encrypt_sk(&mut key, &sk.sk, &enc, &mut xe, &mut xa, sc)))
                     .map_err(|e| format!("encrypt: {e}"))?;
+                prep!("prepare_tensor_key", m.alloc_tensor_key_prepared_from_infos(&enc), m.prepare_tensor_key_tmp_bytes(&enc), |p, sc| m.prepare_tensor_key(&mut p, &key, sc));
+                if extras() {
+                    let mut t = GLWESecretTensor::alloc(deg(n), rk(rank));
+                    let by = m.glwe_secret_tensor_prepare_tmp_bytes(rk(rank));
+                    with_scratch_op::<B, _>("glwe_secret_tensor_prepare", by, g, |sc| guarded(|| m.glwe_secret_tensor_prepare(&mut t, &sk.sk, sc)))
+                        .map_err(|e| format!("glwe_secret_tensor_prepare: {e}"))?;
+                    let mut flat: Vec<i64> = vec![];
+                    for i in 0..rank {
+                        for j in i..rank {
+                            flat.extend_from_slice(t.at(i, j).raw());
+                        }
+                    }
+                    record_step("secret_tensor", i64_bytes(&flat), true);
+                }
                 Ok(Obj {
                     cells: cells_gglwe(&key, 0, sh, &sk.clear, &pts, None),
                     bytes: ser(&key),
                     roundtrip: None,
                     bits,
                     key_l1: sk.l1,
+                    ..Default::default()
                 })
             } else {
                 let mut cc = GLWETensorKeyCompressed::alloc_from_infos(&enc);
@@ -822,7 +975,10 @@ where
                     guarded(|| m.glwe_tensor_key_compressed_encrypt_sk(&mut cc, &sk.sk, seed_a(inp.a), &enc, &mut xe, sc))
                 })
                 .map_err(|e| format!("encrypt: {e}"))?;
+                let d0 = operand_digest(&cc);
                 lib!("decompress", m.decompress_tensor_key(&mut key, &cc));
+                operand_verify("compressed object (decompress)", d0, &cc);
+                prep!("prepare_tensor_key", m.alloc_tensor_key_prepared_from_infos(&enc), m.prepare_tensor_key_tmp_bytes(&enc), |p, sc| m.prepare_tensor_key(&mut p, &key, sc));
                 let seeds = cc.to_ref().seed().clone();
                 let by = ser(&cc);
                 let mut c2 = GLWETensorKeyCompressed::alloc_from_infos(&enc);
@@ -830,13 +986,16 @@ where
                 de(&mut c2, &by)?;
                 let mut k2 = GLWETensorKey::alloc_from_infos(&enc);
                 k2.fill_uniform(64, &mut gsrc(g + 5));
+                let d0 = operand_digest(&c2);
                 lib!("decompress(roundtrip)", m.decompress_tensor_key(&mut k2, &c2));
+                operand_verify("compressed object (decompress(roundtrip))", d0, &c2);
                 Ok(Obj {
                     cells: cells_gglwe(&key, 0, sh, &sk.clear, &pts, Some(&seeds)),
                     bytes: by,
                     roundtrip: Some(body_mask(&cells_gglwe(&k2, 0, sh, &sk.clear, &pts, None))),
                     bits,
                     key_l1: sk.l1,
+                    ..Default::default()
                 })
             }
         }
@@ -852,6 +1011,7 @@ where
             };
             let enc = EncryptionLayout::new(lay, noise).map_err(|e| format!("layout: {e}"))?;
             let sk = make_sk::<B>(m, n, rank, dist, seed_s(inp.s));
+            let _guard_sk = SkGuard::new("glwe secret sk", m, &sk);
             let pts_of = |i: usize| -> Vec<Vec<i64>> { (0..rank).map(|j| small_mul(&sk.clear[i], &sk.clear[j])).collect() };
             let mut xe = Source::new(seed_e(inp.e));
             let mut xa = Source::new(seed_a(inp.a));
@@ -874,12 +1034,14 @@ where
                     })
                 })
                 .map_err(|e| format!("encrypt: {e}"))?;
+                prep!("gglwe_to_ggsw_key_prepare", m.gglwe_to_ggsw_key_prepared_alloc_from_infos(&enc), m.gglwe_to_ggsw_key_prepare_tmp_bytes(&enc), |p, sc| m.gglwe_to_ggsw_key_prepare(&mut p, &key, sc));
                 Ok(Obj {
                     cells: cells_of(&key, None),
                     bytes: ser(&key),
                     roundtrip: None,
                     bits,
                     key_l1: sk.l1,
+                    ..Default::default()
                 })
             } else {
                 let mut cc = GGLWEToGGSWKeyCompressed::alloc_from_infos(&enc);
@@ -902,8 +1064,11 @@ where
                 // GGLWEToGGSWKeyDecompress has no implementor in the library (the trait exists, `impl .. for Module` is missing),
                 // so the key is expanded the way that trait's default method would: one decompress_gglwe per entry
                 for i in 0..rank {
+                    let d0 = operand_digest(cc.at(i));
                     lib!("decompress", m.decompress_gglwe(key.at_mut(i), cc.at(i)));
+                    operand_verify("compressed object (decompress)", d0, cc.at(i));
                 }
+                prep!("gglwe_to_ggsw_key_prepare", m.gglwe_to_ggsw_key_prepared_alloc_from_infos(&enc), m.gglwe_to_ggsw_key_prepare_tmp_bytes(&enc), |p, sc| m.gglwe_to_ggsw_key_prepare(&mut p, &key, sc));
                 let seeds: Vec<Vec<[u8; 32]>> = (0..rank).map(|i| cc.at(i).seed().clone()).collect();
                 let by = ser(&cc);
                 let mut c2 = GGLWEToGGSWKeyCompressed::alloc_from_infos(&enc);
@@ -912,7 +1077,9 @@ where
                 let mut k2 = GGLWEToGGSWKey::alloc_from_infos(&enc);
                 k2.fill_uniform(64, &mut gsrc(g + 5));
                 for i in 0..rank {
+                    let d0 = operand_digest(c2.at(i));
                     lib!("decompress(roundtrip)", m.decompress_gglwe(k2.at_mut(i), c2.at(i)));
+                    operand_verify("compressed object (decompress(roundtrip))", d0, c2.at(i));
                 }
                 Ok(Obj {
                     cells: cells_of(&key, Some(&seeds)),
@@ -920,6 +1087,7 @@ where
                     roundtrip: Some(body_mask(&cells_of(&k2, None))),
                     bits,
                     key_l1: sk.l1,
+                    ..Default::default()
                 })
             }
         }
@@ -930,7 +1098,9 @@ where
                 Routine::GlweToLwe => {
                     let enc = EncryptionLayout::new(gglwe_layout(sh.rank_in, 1), noise).map_err(|e| format!("layout: {e}"))?;
                     let sk_glwe = make_sk::<B>(m, n, sh.rank_in, dist, seed_p(inp.p));
+                    let _guard_sk_glwe = SkGuard::new("glwe secret sk_glwe", m, &sk_glwe);
                     let (sk_lwe, lwe_clear) = make_lwe_sk(n_lwe, dist, seed_of(7, inp.s as u64));
+                    let _guard_sk_lwe = RawGuard::new("lwe secret sk_lwe", sk_lwe.raw());
                     let key_clear = vec![ring::automorphism(&embed(&lwe_clear, n), -1)];
                     let mut key = GLWEToLWEKey::alloc(deg(n), b2k(b), tp(bits), rk(sh.rank_in), Dnum(sh.dnum as u32));
                     key.fill_uniform(64, &mut gsrc(g));
@@ -941,6 +1111,7 @@ where
                         guarded(|| m.glwe_to_lwe_key_encrypt_sk(&mut key, &sk_lwe, &sk_glwe.sk, &enc, &mut xe, &mut xa, sc))
                     })
                     .map_err(|e| format!("encrypt: {e}"))?;
+                    prep!("glwe_to_lwe_key_prepare", m.glwe_to_lwe_key_prepared_alloc_from_infos(&enc), m.glwe_to_lwe_key_prepare_tmp_bytes(&enc), |p, sc| m.glwe_to_lwe_key_prepare(&mut p, &key, sc));
                     let l1 = key_clear[0].iter().map(|x| x.unsigned_abs() as i128).sum();
                     Ok(Obj {
                         cells: cells_gglwe(&key, 0, sh, &key_clear, &sk_glwe.clear, None),
@@ -948,12 +1119,15 @@ where
                         roundtrip: None,
                         bits,
                         key_l1: l1,
+                        ..Default::default()
                     })
                 }
                 Routine::LweKsk => {
                     let enc = EncryptionLayout::new(gglwe_layout(1, 1), noise).map_err(|e| format!("layout: {e}"))?;
                     let (sk_in, in_clear) = make_lwe_sk(n_lwe, dist, seed_p(inp.p));
+                    let _guard_sk_in = RawGuard::new("lwe secret sk_in", sk_in.raw());
                     let (sk_out, out_clear) = make_lwe_sk(n_lwe, dist, seed_of(7, inp.s as u64));
+                    let _guard_sk_out = RawGuard::new("lwe secret sk_out", sk_out.raw());
                     let key_clear = vec![ring::automorphism(&embed(&out_clear, n), -1)];
                     let pts = vec![ring::automorphism(&embed(&in_clear, n), -1)];
                     let mut key = LWESwitchingKey::alloc(deg(n), b2k(b), tp(bits), Dnum(sh.dnum as u32));
@@ -965,6 +1139,7 @@ where
                         guarded(|| m.lwe_switching_key_encrypt_sk(&mut key, &sk_in, &sk_out, &enc, &mut xe, &mut xa, sc))
                     })
                     .map_err(|e| format!("encrypt: {e}"))?;
+                    prep!("lwe_switching_key_prepare", m.lwe_switching_key_prepared_alloc_from_infos(&enc), m.lwe_switching_key_prepare_tmp_bytes(&enc), |p, sc| m.lwe_switching_key_prepare(&mut p, &key, sc));
                     let l1 = key_clear[0].iter().map(|x| x.unsigned_abs() as i128).sum();
                     Ok(Obj {
                         cells: cells_gglwe(&key, 0, sh, &key_clear, &pts, None),
@@ -972,12 +1147,15 @@ where
                         roundtrip: None,
                         bits,
                         key_l1: l1,
+                        ..Default::default()
                     })
                 }
                 _ => {
                     let enc = EncryptionLayout::new(gglwe_layout(1, rank), noise).map_err(|e| format!("layout: {e}"))?;
                     let (sk_lwe, lwe_clear) = make_lwe_sk(n_lwe, dist, seed_p(inp.p));
+                    let _guard_sk_lwe = RawGuard::new("lwe secret sk_lwe", sk_lwe.raw());
                     let sk = make_sk::<B>(m, n, rank, dist, seed_s(inp.s));
+                    let _guard_sk = SkGuard::new("glwe secret sk", m, &sk);
                     let pts = vec![ring::automorphism(&embed(&lwe_clear, n), -1)];
                     let mut key = LWEToGLWEKey::alloc(deg(n), b2k(b), tp(bits), rk(rank), Dnum(sh.dnum as u32));
                     key.fill_uniform(64, &mut gsrc(g));
@@ -988,12 +1166,14 @@ where
                         guarded(|| m.lwe_to_glwe_key_encrypt_sk(&mut key, &sk_lwe, &sk.prep, &enc, &mut xe, &mut xa, sc))
                     })
                     .map_err(|e| format!("encrypt: {e}"))?;
+                    prep!("lwe_to_glwe_key_prepare", m.lwe_to_glwe_key_prepared_alloc_from_infos(&enc), m.lwe_to_glwe_key_prepare_tmp_bytes(&enc), |p, sc| m.lwe_to_glwe_key_prepare(&mut p, &key, sc));
                     Ok(Obj {
                         cells: cells_gglwe(&key, 0, sh, &sk.clear, &pts, None),
                         bytes: ser(&key),
                         roundtrip: None,
                         bits,
                         key_l1: sk.l1,
+                        ..Default::default()
                     })
                 }
             }
